@@ -18,16 +18,42 @@ def apply(ctx, W):
     m = W.file("semantic/module.rs")
     rules.plumbing_once(m)
     mn = m.fn("Module::new")
-    # W5 (trusted segment): the grouping of backend blocks by backend name uses the HashMap entry API; its only
-    # consumer is the backend (outside the verified text, checked by the bounded backend stand-in)
+    # W5 (verified segment): the grouping of backend blocks by backend name.  The entry API is replaced by the
+    # verified helper v_entry_push (R-std); the loop is proved against `spec_backend_group`
     l_bk = loop_by_header(m, mn, "backends")
-    rules.outline(ctx, m, mn, m.top_let(mn, "backends_map"), m.top_stmt_of(mn, l_bk), "new__backends", "backends: &[grammar::Backend]", "backends",
-                  outs=["backends_map"], types=["HashMap<String, Vec<Backend>>"], kind="plain", mode="T", tags=("C14",))
+    ub = rules.outline(ctx, m, mn, m.top_let(mn, "backends_map"), m.top_stmt_of(mn, l_bk), "new__backends", "backends: &[grammar::Backend]", "backends",
+                       outs=["backends_map"], types=["HashMap<String, Vec<Backend>>"], kind="plain", mode="V", tags=("C14",),
+                       ensures=[("backends_grouped(backends@, backends@.len() as int, res.0@)", ("C14",), "backends-grouped")])
+    push_stmt = m.stmt_of(m.method_calls(mn, "or_default")[0]) if len(m.method_calls(mn, "or_default")) == 1 else None
+    if push_stmt is None:
+        raise rules.WeaveError("Module::new: expected one `.or_default()` call")
+    rules.entry_or_default_push(m, mn)
+    ghost(ctx, m, ub, before(m, push_stmt), "let ghost m0__ = backends_map@;")
+    ghost(ctx, m, ub, after(m, push_stmt), """proof {
+                let n = i_b as int;
+                let bs = backends@;
+                let k = bs[n - 1].name.0;
+                let v = Backend { prologue: bs[n - 1].prologue, epilogue: bs[n - 1].epilogue };
+                assert(crate::verif_prelude::entry_pushed(m0__, backends_map@, k, v));
+                assert forall|name: String| #[trigger] backends_map@.contains_key(name) <==> spec_backend_group(bs, n, name).len() > 0 by {
+                    if name == k { } else { assert(m0__.contains_key(name) <==> spec_backend_group(bs, n - 1, name).len() > 0); }
+                }
+                assert forall|name: String| #[trigger] backends_map@.contains_key(name) implies backends_map@[name]@ == spec_backend_group(bs, n, name) by {
+                    if name == k {
+                        if m0__.contains_key(k) { } else { assert(spec_backend_group(bs, n - 1, k).len() == 0); assert(spec_backend_group(bs, n, k) =~= seq![v]); }
+                    } else { assert(m0__.contains_key(name)); }
+                }
+            }""")
+    rules.for_to_index_loop(ctx, m, ub, l_bk, seq="backends", ivar="i_b", elem_ref=True)
+    rules.index_loop_spec(ctx, m, ub, l_bk, tags=("C14",), invariants=[
+        ("backends_grouped(backends@, i_b as int, backends_map@)", ("C14",)),
+    ])
     fnn, un = fn_into_verus(ctx, m, "Module::new", ret="r", tags=("C05", "C10", "C12", "C14", "C15", "C17"), ensures=[
         ("""r is Ok ==> r->Ok_0.path == path && r->Ok_0.ast == ast && r->Ok_0.extern_values == extern_values
                 && r->Ok_0.definition_paths@ == Set::<ItemPath>::empty()""", ("C14", "C15"), "module-fields"),
         ("r is Ok ==> impl_blocks_kept(path, impls@, r->Ok_0.impls@)", ("C05", "C10", "C14"), "impl-blocks-kept"),
         ("r is Ok ==> opt_string_view(r->Ok_0.doc) == spec_doc(ast.attributes.0@)", ("C17",), "module-doc"),
+        ("r is Ok ==> backends_grouped(backends@, backends@.len() as int, r->Ok_0.backends@)", ("C14",), "backends-grouped"),
     ])
     l_im = loop_by_header(m, mn, "impls")
     rules.for_to_index_loop(ctx, m, un, l_im, seq="impls", ivar="i_i", elem_ref=True)
@@ -47,6 +73,7 @@ def apply(ctx, W):
                 final(self).modules@[*path].definition_paths@.contains(#[trigger] spec_join(*path, module.definitions@[j].name.0@))""", ("C14",), "definition-paths"),
         ("res is Ok ==> impl_blocks_kept(*path, module.impls@, final(self).modules@[*path].impls@)", ("C05", "C10", "C14"), "impl-blocks-kept"),
         ("res is Ok ==> opt_string_view(final(self).modules@[*path].doc) == spec_doc(module.attributes.0@)", ("C17",), "module-doc"),
+        ("res is Ok ==> backends_grouped(module.backends@, module.backends@.len() as int, final(self).modules@[*path].backends@)", ("C14",), "backends-grouped"),
         ("""res is Ok ==> forall|i: int, j: int| 0 <= i < j < module.extern_values@.len() ==>
                 (#[trigger] module.extern_values@[i]).name.0@ != (#[trigger] module.extern_values@[j]).name.0@""", ("C14",), "extern-value-names-distinct"),
     ])
@@ -90,6 +117,7 @@ def apply(ctx, W):
         ("self.modules@[*path].extern_values == evs0", ("C15",)),
         ("impl_blocks_kept(*path, module.impls@, self.modules@[*path].impls@)", ("C05", "C14")),
         ("opt_string_view(self.modules@[*path].doc) == spec_doc(module.attributes.0@)", ("C17",)),
+        ("backends_grouped(module.backends@, module.backends@.len() as int, self.modules@[*path].backends@)", ("C14",)),
         ("registry_extends(&old(self).type_registry, &self.type_registry)", ("C14", "C19")),
     ]
     rules.index_loop_spec(ctx, ss, u, l_d, tags=("C14",), invariants=common + [
